@@ -181,6 +181,7 @@ def _lower_method(m, mp):
                 rp.path_template = p["path_template"]
     if m.get("lro") is not None:
         oi = mp.options.Extensions[operations_pb2.operation_info]
+        oi.SetInParent()
         if m["lro"].get("response_type"):
             oi.response_type = m["lro"]["response_type"]
         if m["lro"].get("metadata_type"):
